@@ -5,10 +5,13 @@ import (
 	"encoding/json"
 	"fmt"
 	"hash/fnv"
+	"io"
+	"log"
 	"net"
 	"net/rpc"
 	"strings"
 	"sync"
+	"time"
 
 	"github.com/EdgeCast/vflow/ipfix"
 	netflow9 "github.com/EdgeCast/vflow/netflow/v9"
@@ -495,6 +498,7 @@ func histMain(args mon.Args) {
 		p := ap[i%len(ap)]
 		one(g, []string{"ipfix", "nf9"}[(i/len(ap))%2], &p, false)
 	})
+	peerClientPhase(run, snap)
 	// canary
 	{
 		g := mon.NewRNG(run.Seed, "canary", 0)
@@ -517,8 +521,109 @@ func histMain(args mon.Args) {
 			run.HarnessError("canary: comparator accepted a corrupted expectation")
 		}
 	}
-	run.SetRule("seeded histories of 5-200 messages over 2-50 exporters (4-byte, IPv4-mapped, IPv6) and a pool of 2-5 template ids: announcements, re-announcements with a different definition, data, announce+data and data/redefinition/data inside one message; a reference map (address octets, id) → latest definition, updated in history order, gives the expected records and the expected 'unknown template' reports of every message; IPFIX peer lookups (IRPC.Get directly and through a real net/rpc server on loopback) must return exactly the reference entry or 'not available'. Adversarial histories use key pairs with equal FNV-1-32 of address‖id (found by birthday search: same id on two exporters, different ids, IPv4/IPv6/mapped forms) and 20 structurally aliasing pairs (decimal concatenation without separator, addresses differing in one part only or with permuted octets, ids equal modulo 256 / xor 0x8000 / byte-swapped). distinct = (protocol, colliding, sizes, first datagram); non-trivial = at least one record expected")
-	run.Assume("the client side of the peer fetch (multicast discovery + RPC() loop) cannot run in this sandbox (no interface with flags == 19); only IRPC.Get is exercised")
+	run.SetRule("seeded histories of 5-200 messages over 2-50 exporters (4-byte, IPv4-mapped, IPv6) and a pool of 2-5 template ids: announcements, re-announcements with a different definition, data, announce+data and data/redefinition/data inside one message; a reference map (address octets, id) → latest definition, updated in history order, gives the expected records and the expected 'unknown template' reports of every message; IPFIX peer lookups (IRPC.Get directly and through a real net/rpc server on loopback) must return exactly the reference entry or 'not available'; a peer-client phase runs the real ipfix.RPCServer (port 8085) and fetches hundreds of templates through ONE ipfix.RPCClient, keeping each answer as the RPC loop does: every kept answer must stay equal to its own key's entry. Adversarial histories use key pairs with equal FNV-1-32 of address‖id (found by birthday search: same id on two exporters, different ids, IPv4/IPv6/mapped forms) and 20 structurally aliasing pairs (decimal concatenation without separator, addresses differing in one part only or with permuted octets, ids equal modulo 256 / xor 0x8000 / byte-swapped). distinct = (protocol, colliding, sizes, first datagram); non-trivial = at least one record expected")
+	run.Assume("the RPC() loop itself (multicast discovery) cannot run in this sandbox (no interface with flags == 19); IRPC.Get, RPCServer and RPCClient.Get are exercised")
 	run.Set("sub_claims_not_reached", []string{"peer-fetch client loop (ipfix.RPC): needs multicast discovery"})
 	run.Finish()
+}
+
+// peerClientPhase exercises the client half of the peer fetch as far as it can run here: the real
+// ipfix.RPCServer (port 8085, one per process) serves a cache filled by announcements, and
+// ipfix.NewRPCClient / RPCClient.Get fetch many templates over ONE connection, each answer being kept
+// the way the RPC loop keeps it (a shallow copy of the returned record). Every kept answer must equal
+// the reference entry of its own (exporter, id) - immediately and still after all later fetches.
+func peerClientPhase(run *mon.Run, snap []wire.Elem) {
+	l, err := net.Listen("tcp", ":8085")
+	if err != nil {
+		run.Inconclusive("peer-client phase: port 8085 (fixed in ipfix.RPCServer) is taken on this machine: " + err.Error())
+		return
+	}
+	l.Close()
+	g := mon.NewRNG(run.Seed, "peerclient", 0)
+	o := wire.GenOpts{Elems: snap, Varlen: true, Reduced: true, Options: true, MaxFields: 8, MaxStrLen: 12}
+	served := ipfix.GetCache("")
+	type key struct {
+		addr []byte
+		id   uint16
+	}
+	var keys []key
+	ref := map[string]string{}
+	for e := 0; e < 12; e++ {
+		addr := wire.GenAddr(g)
+		for k, n := 0, g.Range(2, 6); k < n; k++ {
+			id := uint16(256 + g.Intn(40))
+			if _, dup := ref[akey(addr, id)]; dup {
+				continue
+			}
+			t := wire.GenTemplate(g, id, o)
+			kind := wire.SetTemplate
+			if t.Options {
+				kind = wire.SetOptTemplate
+			}
+			b, _ := wire.EncodeFlow("ipfix", []uint32{1, 2, 3, 4}, []wire.Set{{Kind: kind, Templates: []*wire.Template{t}}})
+			if _, err := ipfix.NewDecoder(net.IP(fullCap(addr)), b).Decode(served); err != nil {
+				continue
+			}
+			keys = append(keys, key{addr, id})
+			ref[akey(addr, id)] = tplText(t)
+		}
+	}
+	go ipfix.RPCServer(served, &ipfix.RPCConfig{Enabled: true, Logger: log.New(io.Discard, "", 0)})
+	var cl *ipfix.RPCClient
+	for try := 0; try < 200 && cl == nil; try++ {
+		if cl, err = ipfix.NewRPCClient("127.0.0.1"); err != nil {
+			cl = nil
+			time.Sleep(10 * time.Millisecond)
+		}
+	}
+	if cl == nil {
+		run.Inconclusive("peer-client phase: could not connect to ipfix.RPCServer on 127.0.0.1:8085: " + fmt.Sprint(err))
+		return
+	}
+	type kept struct {
+		k    key
+		rec  ipfix.TemplateRecord // what m.insert(req.ID, req.IP, *tr) would store
+		want string
+	}
+	var all []kept
+	fetches := run.Pick(400, 4000)
+	for i := 0; i < fetches; i++ {
+		k := keys[g.Intn(len(keys))]
+		unknown := g.Chance(1, 6)
+		if unknown {
+			k.id = uint16(300 + g.Intn(1000))
+			if _, ok := ref[akey(k.addr, k.id)]; ok {
+				unknown = false
+			}
+		}
+		req := ipfix.RPCRequest{ID: k.id, IP: net.IP(fullCap(k.addr))}
+		tr, err := cl.Get(req)
+		run.Eval(1)
+		run.Add("peer_client_fetches_over_one_connection", 1)
+		want := ref[akey(k.addr, k.id)]
+		got := ""
+		if err == nil && tr != nil {
+			got = recText(tr)
+		}
+		if got != want {
+			run.Violation("hist:ipfix:peer-client-get", fmt.Sprintf("fetch %d over one RPCClient: Get(%x, %d) = %q (%v), the serving cache holds %q", i, k.addr, k.id, got, err, want),
+				map[string]interface{}{"engine": "cachecheck/hist", "phase": "peer-client", "fetch": i, "exporter": mon.Hex(k.addr), "id": k.id})
+			return
+		}
+		if err == nil && tr != nil {
+			all = append(all, kept{k, *tr, want})
+			run.Distinct(fmt.Sprintf("peer-client|%x|%d", k.addr, k.id))
+		}
+		// every answer kept so far is still what was fetched for ITS key
+		if i%20 == 19 || i == fetches-1 {
+			for j := range all {
+				if now := recText(&all[j].rec); now != all[j].want {
+					run.Violation("hist:ipfix:peer-client-kept-answer-changed", fmt.Sprintf("the template fetched for (%x, %d) and kept as the RPC loop keeps it (shallow copy of the answer) read %q when fetched and reads %q after %d later fetches over the same connection", all[j].k.addr, all[j].k.id, all[j].want, now, i-j),
+						map[string]interface{}{"engine": "cachecheck/hist", "phase": "peer-client", "fetch": i, "kept_index": j})
+					return
+				}
+			}
+		}
+	}
+	run.Set("peer_client_keys_served", len(keys))
 }
